@@ -12,9 +12,10 @@ def leaf_harnesses():
                                   ("SEL_LIST", 48, 8, {}), ("SEL_SMPL", 96, 20, {}), ("SEL_ACID", 64, 10, {})):
         d = {sel: 1, "FLEN_MAX": flen, "MF_CAP": 4, "MF_MAXIO": 96, "MF_ABSTRACT": 1, "SNP_MAX": 40, "PSF_MEMSET_MAX": 64}
         d.update(extra)
-        out.append(H("wavleaf." + sel[4:].lower(), "C03/wav_leaf.c", link=[u for u in ALL_UNITS if u != "wav"], stubs=["psf_log_printf", "psf_memset"],
+        d["FLEN_FIXED"] = flen
+        out.append(H("wavleaf." + sel[4:].lower(), "C03/wav_leaf.c", link=["common", "wavlike", "chunk", "strings", "broadcast", "cart", "id3", "audio_detect", "chanmap", "command"], stubs=["psf_log_printf", "psf_memset"],
                      defines=d, unwind=unw, unwindset=["psf_fread.0:97", "psf_memset.0:65", "strlen.0:70", "psf_binheader_readf.1:40", "snprintf.0:41", "snprintf.1:41"],
-                     checks="mem", include_env=("log_stub", "memfile", "memset_model", "snprintf_model", "libm_model"), timeout=300,
+                     checks="mem", include_env=("log_stub", "memfile", "memset_model", "snprintf_model", "libm_model"), timeout=2400, tiers=("thorough",),
                      functions=["wavlike_read_fmt_chunk", "wavlike_read_bext_chunk", "wavlike_read_cart_chunk", "wavlike_read_peak_chunk",
                                 "wavlike_subchunk_parse", "exif_subchunk_parse", "wav_read_smpl_chunk", "wav_read_acid_chunk", "psf_binheader_readf", "header_read", "header_seek"],
                      bounds="chunk size any 32-bit value, file content nondeterministic, file length 0..%d" % flen))
@@ -22,4 +23,8 @@ def leaf_harnesses():
 HARNESSES += leaf_harnesses()
 # sequences of calls after a successful open: the L4 wrapper harnesses start from any I_open state (C05/C06/C17)
 HARNESSES += [h for h in _load("C05").HARNESSES if h.name.startswith("wrap.") and ".ch2" in h.name and "probe" not in h.name]
+# ... including sf_command with every command id / datasize on an arbitrary handle state
+HARNESSES += [h for h in _load("C17").HARNESSES if h.name.startswith("cmd.SFC_GET") or h.name.startswith("cmd.0x")]
+# fixed-layout container parsers + sane-info gate on arbitrary files (thorough tier; see C16 registry)
+HARNESSES += _load("C16").oc_harnesses()
 META = {"assumptions": ["E-memfile (content nondeterministic)", "layering by contracts (DESIGN 3.3)"], "outside": ["whole-file parse of the chunked containers in one query", "files longer than the stated length"]}
